@@ -1,14 +1,15 @@
 /-
 C10 — integer-domain functions agree with exact big-integer mathematics.
-Proved here for all arguments: fibonacci, factorial, one-bit shifts (the primitive of `<<`/`>>`
-and of long division), the rounding decision of floor/ceil/round, the greedy roman-numeral
-decomposition.  Carried by correspondence + oracle only (stated in the evidence): nCr/nPr, mod,
-bitwise and/or/xor, multi-bit shifts, words, char/codepoint (their models are executable and
-diffed against the implementation on every run).
+Proved here for all arguments: fibonacci, factorial, one-bit and multi-bit shifts (`<<`, `>>`:
+`self * 2^n`, `self / 2^n` for every word-sized count), bitwise and/or/xor, the rounding
+decision of floor/ceil/round, the greedy roman-numeral decomposition.  Carried by
+correspondence + oracle only (stated in the evidence): nCr/nPr, mod, words, char/codepoint
+(their models are executable and diffed against the implementation on every run).
 -/
 import FendModel.Proofs.IntFns
 import FendModel.Proofs.BigUintShift
 import FendModel.Proofs.BigUintBitwise
+import FendModel.Proofs.BigUintShiftN
 
 namespace Fend.C10
 open Fend Fend.BigUint
@@ -23,6 +24,15 @@ theorem shl1_exact (a : BigUint) (ha : a.WF) (hne : a.limbs ≠ []) :
 
 theorem shr1_exact (a : BigUint) (ha : a.WF) : val a.rshift = val a / 2 ∧ a.rshift.WF :=
   rshift_val a ha
+
+/-- `a << n` is `a * 2^n` for every shift count that fits a machine word (whole-limb splice plus
+`n % 64` one-bit shifts), and never panics -/
+theorem shl_exact (a n : BigUint) (ha : a.WF) (hne : a.limbs ≠ []) (hf : n.fitsU64 = true) :
+    ∃ r, lshiftN a n = .ok r ∧ val r = val a * 2 ^ val n ∧ r.WF := lshiftN_val a n ha hne hf
+
+/-- `a >> n` is `⌊a / 2^n⌋` (the loop's early exit at zero does not change the value) -/
+theorem shr_exact (a n : BigUint) (ha : a.WF) (hf : n.fitsU64 = true) :
+    ∃ r, rshiftN a n = .ok r ∧ val r = val a / 2 ^ val n ∧ r.WF := rshiftN_val a n ha hf
 
 /-- bitwise `&`, `|`, `xor` on limb vectors of any two lengths are the bitwise operations on the values -/
 theorem and_exact (a b r : BigUint) (ha : a.WF) (hb : b.WF) (h : bitwiseAnd a b = .ok r) : val r = val a &&& val b := and_val a b r ha hb h
